@@ -8,8 +8,10 @@ checks, na = [], []
 for p in props:
     pid = p["id"]
     c = CHECKS.get(pid)
+    if c and pid not in CHECKS.get("_ready", [pid]):
+        c = None
     if not c or c.get("not_applicable"):
-        na.append({"property_id": pid, "reason": (c or {}).get("not_applicable", "check not built yet")})
+        na.append({"property_id": pid, "reason": (c or {}).get("not_applicable", "check built but not yet verified quiet on the current tree (in progress)")})
         continue
     checks.append({
         "property_id": pid,
